@@ -48,6 +48,38 @@ def gen(tier, rng):
                     cases.append(rz.resize_case(pt, sw, sh, dw, dh, alg=alg, flt=flt, m=m, alpha=False, box=box, Q=Q, cpu=rz.pick(n, 109, rz.CPUS),
                                                 src_c=c, src_lay={"k": "image_ref", "guard": 1}, log=("minmax",),
                                                 chk=("pipeline", "ret_ok", "range_ulp1" if isf else "range")))
+    # strong down-scales (windows of 16 .. 100 taps: the long-window branches of the SIMD kernels), every row-count residue
+    # of the 4-row / 2-row / 1-row kernels, contents with flat areas AT the ends of their range (a plateau at the maximum
+    # must come out exactly at the maximum: one unit of rounding bias overshoots)
+    strong = [(96, 5, 6, 5), (5, 96, 5, 6), (128, 3, 4, 3), (200, 2, 5, 1), (64, 7, 2, 7), (150, 6, 9, 6)]
+    for pt in rz.ALL_PT:
+        info = rz.PT[pt]
+        isf = info["comp"] == "f32"
+        for (sw, sh, dw, dh) in strong:
+            for flt in NONNEG:
+                for kind in ("plateau", "step"):
+                    n += 1
+                    if tier == "quick" and rz.pick(n, 113, [0, 1]):
+                        continue
+                    if isf:
+                        lo, hi = rz.f32bits(0.25), rz.f32bits(0.75)
+                    elif info["comp"] == "i32":
+                        lo, hi = -12345, 2 ** 31 - 2
+                    else:
+                        lo, hi = rz.pick(n, 114, [(0, info["max"] - 1), (1, info["max"] // 2), (info["max"] // 3, info["max"])])
+                    nc = info["nc"]
+                    if kind == "plateau":
+                        vals = [hi] * (sw * sh * nc)
+                    else:
+                        vals = []
+                        for y in range(sh):
+                            for x in range(sw):
+                                vals += [hi if (x * 2 >= sw) == (y * 2 >= sh) else lo] * nc
+                    alg, m = rz.pick(n, 115, [("conv", 1), ("conv", 1), ("ss", 1), ("interp", 1)])
+                    for cpu in rz.CPUS:
+                        cases.append(rz.resize_case(pt, sw, sh, dw, dh, alg=alg, flt=flt, m=m, alpha=False, cpu=cpu, src_c={"g": "data", "v": vals},
+                                                    src_lay={"k": "image_ref", "guard": 1}, log=("minmax",),
+                                                    chk=("pipeline", "ret_ok", "range_ulp1" if isf else "range")))
     if tier != "quick":
         for i in range(6000):
             kw = rz.random_resize_kw(rng, algs=[("conv", 1), ("interp", 1), ("ss", 1), ("ss", 2)], filters=NONNEG, maxdim=70)
